@@ -279,8 +279,7 @@ Definition concat_pattern_templates : list str := [k_text_starts_with; k_text_co
 (* C02-N7: process_concat never parenthesises a part; on a dialect without a CONCAT function the parts sit next to `||` *)
 Definition known_concat_part (dialect : str) (t : triple) : bool :=
   negb (dialect_has_concat dialect) && leqb (fst (fst t)) k_concat.
-(* F5 (div_i / math.log declared strength 100 over a top-level `*` / `/`) was repaired in /repo: the templates declare 11 *)
-Definition known_triple (dialect : str) (t : triple) : bool := known_concat_part dialect t.
+Definition known_triple (dialect : str) (t : triple) : bool := mem (snd t) dishonest_templates || known_concat_part dialect t.
 
 Definition sql_compat (dialect : str) : bool :=
   forallb (fun tv => known_triple dialect (fst tv) || verdict_ok (snd tv)) (all_triples dialect).
